@@ -230,8 +230,8 @@ theorem online_floor_real (nc itemsize bytes : ℕ) (hnc : 0 < nc) (hsz : 0 < it
 /-- The formula before the `fix:` commit, on a 7-byte file with 4-byte frames (one complete frame and three
 trailing bytes): whatever the rounding function, the four roundings leave the value in `(1.5, 2.5)`, `ns`
 becomes 2 and the 8-byte map is refused. -/
-theorem old_formula_fails (iw : Bool) (fs fts : ℝ) (hfs : 0 < fs) :
-    openBinOld (realArith F) iw (.ofMeta 2 fs (some fts) true) 2 7 = .error .mmapTooLong := by
+theorem old_formula_fails (fs fts : ℝ) (hfs : 0 < fs) :
+    openBinOld (realArith F) (.ofMeta 2 fs (some fts)) 2 7 = .error .mmapTooLong := by
   have hne : ∀ n : ℕ, 2 * n * 2 ≠ 7 := by intro n; omega
   have hz : (@decide (fs = 0) (Classical.propDecidable _)) = false := by
     simp [hfs.ne']
@@ -285,10 +285,8 @@ theorem old_formula_fails (iw : Bool) (fs fts : ℝ) (hfs : 0 < fs) :
     apply rnd_eq F _ 2
     rw [abs_lt]
     constructor <;> push_cast <;> linarith
-  have hwarn : (Hdr.ofMeta 2 fs (some fts) true).warnBin iw = .ok () :=
-    warnBin_ok 2 fs (some fts) true iw (Or.inr ⟨rfl, rfl⟩)
   simp only [openBinOld, Hdr.nc, Hdr.nsOffline, Hdr.fs, Hdr.setFileTimeSecs, realArith, hne, ne_eq,
-    not_false_eq_true, if_true, hz, h7, h2, hwarn, bind, Except.bind, pure, Except.pure]
+    not_false_eq_true, if_true, hz, h7, h2, bind, Except.bind, pure, Except.pure]
   simp [← hz1, ← hz2, ← hz3, hr, memmap]
 
 end IblVerif.OpenSize
